@@ -24,7 +24,7 @@ $(B)/include/crab/config.h: $(REPO)/include/crab/config.h.cmake
 	@mkdir -p $(dir $@)
 	@printf '#ifndef _CRAB_CONFIG_H_\n#define _CRAB_CONFIG_H_\n#define CRAB_STATS TRUE\n#endif\n' > $@
 
-$(B)/libcrab/%.o: $(REPO)/lib/%.cpp $(B)/include/crab/config.h
+$(LIBOBJ): $(B)/libcrab/%.o: $(REPO)/lib/%.cpp $(B)/include/crab/config.h
 	@mkdir -p $(dir $@)
 	$(CXX) $(CXXFLAGS) -MMD -MP -c $< -o $@
 
@@ -32,13 +32,14 @@ $(B)/libCrab.a: $(LIBOBJ)
 	@rm -f $@
 	ar rcs $@ $^
 
-$(B)/obj/%.o: harness/%.cpp $(B)/include/crab/config.h
+$(HOBJ): $(B)/obj/%.o: harness/%.cpp $(B)/include/crab/config.h
 	@mkdir -p $(dir $@)
 	$(CXX) $(CXXFLAGS) -MMD -MP -c $< -o $@
 
+PCT := %
 # a runner "foo" links harness/foo.cpp and every harness/foo__*.cpp
 .SECONDEXPANSION:
-$(B)/bin/%: $$(filter $(B)/obj/$$*.o $(B)/obj/$$*__%.o,$(HOBJ)) $(B)/libCrab.a
+$(B)/bin/%: $$(filter $(B)/obj/$$*.o $(B)/obj/$$*__$$(PCT).o,$(HOBJ)) $(B)/libCrab.a
 	@mkdir -p $(dir $@)
 	g++ -o $@ $(filter %.o,$^) $(B)/libCrab.a $(LDLIBS)
 
@@ -46,5 +47,4 @@ $(B)/bin/%: $$(filter $(B)/obj/$$*.o $(B)/obj/$$*__%.o,$(HOBJ)) $(B)/libCrab.a
 
 clean:
 	rm -rf $(B)/obj $(B)/libcrab $(B)/bin $(B)/libCrab.a
-.SECONDARY:
 .PHONY: all clean
